@@ -51,7 +51,7 @@ theorem psub_trans (H : Hier) (hok : H.ok = true) (a b c : Ty)
     (wa : a.wf H = true) (wb : b.wf H = true) (wc : c.wf H = true)
     (h1 : isProperSubtype H a b = true) (h2 : isProperSubtype H b c = true) :
     isProperSubtype H a c = true := by
-  have := trans_all (H.ok_sound hok) _ true true a b c (Nat.le_refl _) (Or.inl ⟨rfl, rfl⟩) wa wb wc h1 h2
+  have := trans_all (H.ok_sound hok) _ true true a b c (Nat.le_refl _) ⟨Or.inl rfl, Or.inl rfl⟩ wa wb wc h1 h2
   simpa [isProperSubtype_eq] using this
 
 /-- **not_sub_trans**: the full statement of transitivity is false of the transcribed rules (and of the code):
@@ -60,13 +60,14 @@ theorem not_sub_trans : ∃ (H : Hier) (a b c : Ty), H.ok = true ∧ a.wf H = tr
     isSubtype H a b = true ∧ isSubtype H b c = true ∧ isSubtype H a c = false :=
   ⟨demoH, .typeType (.inst 4), .callable [] (.inst 4), .inst 2, by decide⟩
 
-/-- **sub_trans_partial**: subtyping is transitive on terms in which `builtins.function` — the fallback of
-    callables, not denotable in source — does not occur (`Ty.noFunc`, a decidable predicate). -/
+/-- **sub_trans_partial**: subtyping is transitive whenever `builtins.function` — the fallback of callables,
+    not denotable in source — does not occur in the two outer types (`Ty.noFunc`, a decidable predicate;
+    nothing is required of the middle type). -/
 theorem sub_trans_partial (H : Hier) (hok : H.ok = true) (a b c : Ty)
     (wa : a.wf H = true) (wb : b.wf H = true) (wc : c.wf H = true)
-    (na : a.noFunc H = true) (nb : b.noFunc H = true) (nc : c.noFunc H = true)
+    (na : a.noFunc H = true) (nc : c.noFunc H = true)
     (h1 : isSubtype H a b = true) (h2 : isSubtype H b c = true) : isSubtype H a c = true := by
-  have := trans_all (H.ok_sound hok) _ false false a b c (Nat.le_refl _) (Or.inr ⟨na, nb, nc⟩) wa wb wc h1 h2
+  have := trans_all (H.ok_sound hok) _ false false a b c (Nat.le_refl _) ⟨Or.inr nc, Or.inr na⟩ wa wb wc h1 h2
   simpa [isSubtype_eq] using this
 
 /-- non-vacuity: a chain through a covariant generic, a union and a contravariant callable parameter -/
@@ -74,17 +75,16 @@ example : let a := Ty.callable [.union [.inst 4, .none]] (.gen 6 (.inst 5))
           let b := Ty.callable [.inst 4] (.gen 6 (.inst 4))
           let c := Ty.union [.callable [.inst 5] (.gen 6 (.inst 4)), .none]
           a.wf demoH = true ∧ b.wf demoH = true ∧ c.wf demoH = true
-          ∧ a.noFunc demoH = true ∧ b.noFunc demoH = true ∧ c.noFunc demoH = true
+          ∧ a.noFunc demoH = true ∧ c.noFunc demoH = true
           ∧ isSubtype demoH a b = true ∧ isSubtype demoH b c = true ∧ a ≠ b ∧ b ≠ c := by decide
 
 /-- **simplify_equiv**: `make_simplified_union(items)` is equivalent (mutual subtyping) to the plain union of
-    the items — any well-formed, non-degenerate item list (some item must have a leaf: `Union[()]` alone has
-    no subtype at all in the code, not even Never). -/
+    the items — any non-empty list of well-formed items. -/
 theorem simplify_equiv (H : Hier) (hok : H.ok = true) (items : List Ty)
-    (hw : ∀ t ∈ items, t.wf H = true) (hne : flattenL items ≠ []) :
+    (hw : ∀ t ∈ items, t.wf H = true) (hne : items ≠ []) :
     isSubtype H (simplifyUnion H items) (.union items) = true ∧
     isSubtype H (.union items) (simplifyUnion H items) = true :=
-  simplify_equiv_S (H.ok_sound hok) items (wfL_iff.2 hw) hne
+  simplify_equiv_S (H.ok_sound hok) items (wfL_iff.2 hw) (flattenL_ne_nil (wfL_iff.2 hw) hne)
 
 /-- the literal fast path of `_remove_redundant_union_items` keeps a redundant literal:
     `[Literal[1], int, Literal[2]]` simplifies to `Literal[1] | int | Literal[2]` — still equivalent -/
